@@ -86,6 +86,9 @@ func Load(c Config) (*Result, error) {
 		return nil, fmt.Errorf("load %v: %d package errors, first: %s", c.Patterns, len(errs), strings.Join(errs, "; "))
 	}
 	for _, p := range pkgs {
+		if len(p.GoFiles) == 0 && len(p.CompiledGoFiles) == 0 {
+			continue // test-only package under the default configuration
+		}
 		if p.Types == nil || len(p.Syntax) == 0 {
 			return nil, fmt.Errorf("load: package %s has no syntax/types", p.PkgPath)
 		}
